@@ -422,7 +422,7 @@ def _first_diff(a, b, path=""):
 # --------------------------------------------------------------------------------------
 # generation
 # --------------------------------------------------------------------------------------
-STATS = ["np.mean", "np.median", "np.max", "np.min", "stat_range", "stat_first"]
+STATS = ["np.mean", "np.median", "np.max", "np.min", "np.std", "np.var", "stat_range", "stat_first"]
 
 
 def gen_U(rng, nmax):
@@ -437,7 +437,7 @@ def gen_U(rng, nmax):
     cp = sorted(set(int(v) for v in rng.integers(1, nmax, size=m)))
     if cp and rng.random() < 0.4:
         cp = sorted(set(cp + [cp[0] + 1]))  # adjacent changepoints -> length-1 segments
-    return {"__cls__": "ScriptedDetector", "params": {"cpts": {"__tuple__": cp}}}
+    return {"__cls__": "ScriptedDetector" if rng.random() < 0.7 else "ScriptedDetectorNoFit", "params": {"cpts": {"__tuple__": cp}}}
 
 
 def gen_x(rng, n, intdata):
@@ -493,6 +493,7 @@ U_MENU = {
     "SeededBinarySegmentation": [("threshold_scale", [0.3, 1.0, 2.0]), ("min_segment_length", [1, 2])],
     "ScriptedDetector": [("cpts", [{"__tuple__": []}, {"__tuple__": [2, 3]}, {"__tuple__": [1, 5, 6, 9]}, {"__tuple__": [4, 8, 12, 16, 20]}])],
 }
+U_MENU["ScriptedDetectorNoFit"] = U_MENU["ScriptedDetector"]
 
 
 def gen_step(rng, sim, cfg, datasets):
@@ -541,7 +542,7 @@ def gen_step(rng, sim, cfg, datasets):
         kinds = [k for k in cfg["faults"] if k in ("interrupt", "flaky")]
         if kinds:
             fk = kinds[int(rng.integers(len(kinds)))]
-            if fk == "flaky" and type(sim.U).__name__ == "ScriptedDetector":
+            if fk == "flaky" and type(sim.U).__name__.startswith("ScriptedDetector"):
                 site = "ScriptedDetector._fit" if op in ("A_fit", "A_update") else "ScriptedDetector._predict"
                 st["fault"] = {"kind": "flaky", "site": site, "at": 1}
             else:
